@@ -114,10 +114,13 @@ def decide(prop, tier, jobs, only, relock, seed, t0):
     scratch = make_scratch(prop)
     try:
         # ---------------- Verus units (fast, first) ----------------
-        for u in vunits:
-            r = V.run_unit(u, scratch)
-            meta["verus"].append(r["meta"])
-            results.update(r["obligations"])
+        # the units are independent single-file runs of a few seconds each: four at a time
+        from concurrent.futures import ThreadPoolExecutor
+
+        with ThreadPoolExecutor(max_workers=4) as ex:
+            for r in ex.map(lambda u: V.run_unit(u, scratch), vunits):
+                meta["verus"].append(r["meta"])
+                results.update(r["obligations"])
         # ---------------- Kani ----------------
         if kobs:
             files = K.select(contracts, prop)
